@@ -7,6 +7,7 @@ CONSTANTS
   LongSizes = {}
   LongRuns <- RunsQuick
   FullQueries = 301
+  PauseSizes = {}
   DevSets <- OnlyPinned
 SPECIFICATION MCFairSpec
 PROPERTY Terminates
